@@ -220,7 +220,7 @@ def _leaf(k, n, z1, z2, z3, u, s, uid):
 
 def jobs(tier):
     q = tier == "quick"
-    T = 400 if q else 2000
+    T = 600 if q else 2000
     js = []
     js.append({"name": "bool_shape", "fn": "bool_shape", "params": {}, "timeout": T, "per_path": 120})
     for la in range(len(FLAG_LEAVES)):
